@@ -36,11 +36,19 @@ pub trait FieldK {
     fn neg_r(x: &Self::Pub) -> Self::Pub;
     fn is_zero(x: &Self::Pub) -> bool;
     fn inverse(x: &Self::Pub) -> Option<Self::Pub>;
+    const ONE: [u64; 4];
+    const R2: [u64; 4];
+    const TEN: [u64; 4];
+    fn from_slice(b: &[u8]) -> Option<Self::Pub>;
+    fn to_slice(x: Self::Pub) -> [u8; 32];
+    fn interpret(b: &[u8; 64]) -> Self::Pub;
+    fn from_dec(s: &str) -> Option<Self::Pub>;
+    fn eq(x: &Self::Pub, y: &Self::Pub) -> bool;
 }
 pub struct KFq;
 pub struct KFr;
 macro_rules! impl_fieldk {
-    ($k:ident, $P:expr, $pubty:ty, $rawty:ty, $wrap:ident, $inner:ident, $from_raw:ident, $to_raw:ident) => {
+    ($k:ident, $P:expr, $one:expr, $r2:expr, $ten:expr, $pubty:ty, $rawty:ty, $wrap:ident, $inner:ident, $from_raw:ident, $to_raw:ident) => {
         impl FieldK for $k {
             const P: [u64; 4] = $P;
             type Pub = $pubty;
@@ -84,11 +92,29 @@ macro_rules! impl_fieldk {
             fn inverse(x: &$pubty) -> Option<$pubty> {
                 x.inverse()
             }
+            const ONE: [u64; 4] = $one;
+            const R2: [u64; 4] = $r2;
+            const TEN: [u64; 4] = $ten;
+            fn from_slice(b: &[u8]) -> Option<$pubty> {
+                <$pubty>::from_slice(b)
+            }
+            fn to_slice(x: $pubty) -> [u8; 32] {
+                x.to_slice()
+            }
+            fn interpret(b: &[u8; 64]) -> $pubty {
+                <$pubty>::interpret(b)
+            }
+            fn from_dec(s: &str) -> Option<$pubty> {
+                <$pubty as sm9_core::FromStr>::from_str(s).ok()
+            }
+            fn eq(x: &$pubty, y: &$pubty) -> bool {
+                x == y
+            }
         }
     };
 }
-impl_fieldk!(KFq, Q, sm9_core::Fq, RawFq, pub_fq, pub_fq_inner, fq_from_raw, fq_raw);
-impl_fieldk!(KFr, R, sm9_core::Fr, RawFr, pub_fr, pub_fr_inner, fr_from_raw, fr_raw);
+impl_fieldk!(KFq, Q, Q_ONE, Q_R2, Q_TEN, sm9_core::Fq, RawFq, pub_fq, pub_fq_inner, fq_from_raw, fq_raw);
+impl_fieldk!(KFr, R, R_ONE, R_R2, R_TEN, sm9_core::Fr, RawFr, pub_fr, pub_fr_inner, fr_from_raw, fr_raw);
 
 fn lin_add<K: FieldK>() {
     let (a, b) = (any_below(&K::P), any_below(&K::P));
